@@ -68,13 +68,34 @@ package txnlock
 //@   trusted
 //@   modifies nothing
 //@   ensures result1 == nil && result0.ttl == 0 ==> result0.commitTS == reported(txnID)
+// checkAllSecondaries seeds the accumulated timestamp with the primary lock's min-commit-ts, and no check of a region's
+// secondaries lowers it: unless a lock turned out to be missing (then the store's report decides), the derived commit
+// timestamp is not below the primary's min-commit-ts. (That the derived timestamp is "the" outcome of the transaction,
+// reported(txn), is a postulate used by BatchResolveLocks, not checked here.)
 //@ func (*LockResolver) checkAllSecondaries
-//@   trusted
-//@   modifies nothing
-//@   ensures result1 == nil ==> result0 != nil && result0.commitTs == reported(l.TxnID)
+//@   prop C04
+//@   may-panic
+//@   requires bo != nil && status != nil && status.primaryLock != nil
+//@   opaque-callee GroupKeysByRegion UpdateUsingForked Fork
+//@   loop 1 invariant floor: shared.missingLock || shared.commitTs >= status.primaryLock.MinCommitTs
+//@   loop 1 invariant same: status == old(status) && status.primaryLock == old(status.primaryLock) && status.primaryLock.MinCommitTs == old(status.primaryLock.MinCommitTs)
+//@   loop 2 invariant floor: shared.missingLock || shared.commitTs >= status.primaryLock.MinCommitTs
+//@   at return assert floor: result1 == nil ==> result0 != nil && (result0.missingLock || result0.commitTs >= old(status.primaryLock.MinCommitTs))
+//@   postulate result1 == nil ==> result0 != nil && result0.commitTs == reported(l.TxnID)
+
+// One region's secondaries: the request names the transaction and exactly the keys given; what comes back is folded into
+// the shared accumulator by addKeys only, so the accumulated timestamp never decreases while no lock is missing.
+//@ func (*LockResolver) checkSecondaries
+//@   prop C04
+//@   may-panic
+//@   opaque-callee GroupKeysByRegion GetRegionError RequestSourceFromCtx ResourceGroupNameFromCtx
+//@   loop 1 invariant mono: !shared.missingLock ==> !old(shared.missingLock) && shared.commitTs >= old(shared.commitTs)
+//@   at call(SendReq) assert request: arg_regionID == curRegionID && checkReq.StartVersion == txnID && checkReq.Keys == curKeys && arg_req != nil && arg_req.Req.(*kvrpcpb.CheckSecondaryLocksRequest) == checkReq
+//@   ensures mono: !shared.missingLock ==> !old(shared.missingLock) && shared.commitTs >= old(shared.commitTs)
 //@ func (*LockResolver) BatchResolveLocks
 //@   prop C04
 //@   may-panic
+//@   requires bo != nil
 //@   opaque-callee resolvePessimisticLock GetRegionError RequestSourceFromCtx ResourceGroupNameFromCtx
 //@   loop 1 invariant infos: txnInfos != nil && forall t uint64 :: inDom(txnInfos, t) ==> txnInfos[t] == reported(t)
 //@   loop 2 invariant sent: forall i int :: 0 <= i && i < len(listTxnInfos) ==> listTxnInfos[i] != nil && listTxnInfos[i].Status == reported(listTxnInfos[i].Txn)
@@ -99,3 +120,4 @@ package txnlock
 //@       (data.commitTs == old(data.commitTs) || exists i int :: 0 <= i && i < len(locks) && locks[i] != nil && data.commitTs == locks[i].MinCommitTs)
 //@   ensures missing: result == nil && len(locks) < expected ==> data.missingLock && data.commitTs == commitTS && (!old(data.missingLock) && commitTS != 0 ==> commitTS >= old(data.commitTs)) && (old(data.missingLock) ==> old(data.commitTs) == commitTS)
 //@   ensures frozen: result == nil && old(data.missingLock) ==> data.commitTs == old(data.commitTs) && data.missingLock
+//@   ensures mono: !data.missingLock ==> !old(data.missingLock) && data.commitTs >= old(data.commitTs)
